@@ -12,15 +12,21 @@ pub struct GenerateResult {
 
 fn generate_hex_from_segment(segment: &[u8]) -> Result<String, Error> {
     let mut records = vec![];
-    if segment.len() > 0 {
-        records.push(Record::ExtendedSegmentAddress(0x0));
-
-        for (i, chunk) in segment.chunks(16).enumerate() {
-            records.push(Record::Data {
-                offset: i as u16 * 16,
-                value: chunk.to_vec(),
+    for (i, chunk) in segment.chunks(16).enumerate() {
+        let address = i * 16;
+        // A data record carries a 16-bit offset only: every 64 KiB block starts with an
+        // extended address record (segment form below 1 MiB, linear form above).
+        if address % 0x1_0000 == 0 {
+            records.push(if address < 0x10_0000 {
+                Record::ExtendedSegmentAddress((address >> 4) as u16)
+            } else {
+                Record::ExtendedLinearAddress((address >> 16) as u16)
             });
         }
+        records.push(Record::Data {
+            offset: (address % 0x1_0000) as u16,
+            value: chunk.to_vec(),
+        });
     }
     records.push(Record::EndOfFile);
 
